@@ -21,7 +21,11 @@ class Check(BaseCheck):
     rule = ("triangle generator families without unused vertices x random scalar and multi-column vertex / triangle functions x weighted in "
             "{False, True} x smoothing iterations 1..4; outputs compared with the model (1e-9); wrong-length inputs for the ValueError branch; "
             "distinct by hash of (mesh, function, options)")
-    trusted = ["map_tfunc_to_vfunc / smooth_vfunc are tied to the model by the differential check only (np.add.at / sparse products are not traceable)"]
+    trusted = ["smooth_vfunc / smooth_ are tied to the model by the differential check only (sparse products are not traceable); map_tfunc_to_vfunc (plain, weighted, one and two columns) and map_vfunc_to_tfunc are re-traced from the source on every run and bridged by proof (Bridge/VertexMeasures.lean)"]
+
+    def translate(self):
+        extract.gen_measures()
+        extract.gen_transfer()
 
     def cases(self, seed, n):
         rng = gen.rng_for(seed, "c15")
